@@ -15,7 +15,14 @@ pub struct Found {
 
 /// Executes the candidate under `Strategy::Script`; returns the re-recorded trace if the
 /// target violation is still there.
+/// Wall-clock budget of one minimisation; when it is used up the best candidate so far (which did
+/// reproduce) is what gets reported. Shrinking less never makes a replay file wrong.
+pub const MINIMISE_BUDGET: std::time::Duration = std::time::Duration::from_secs(45);
+
 fn still(plan: &Plan, script: &[Action], target: &Violation, refs: &mut References, n: &mut u32) -> Option<(Vec<Action>, Violation, u64)> {
+    if DEADLINE.with(|d| d.get().map(|t| std::time::Instant::now() > t).unwrap_or(false)) {
+        return None; // out of budget: the candidate is not tried, i.e. not accepted
+    }
     *n += 1;
     let r = oracle::run_forked(plan, Some(script), refs);
     let vs = oracle::violations_of(plan, refs, &r);
@@ -27,7 +34,18 @@ fn still(plan: &Plan, script: &[Action], target: &Violation, refs: &mut Referenc
     }
 }
 
+thread_local! {
+    static DEADLINE: std::cell::Cell<Option<std::time::Instant>> = const { std::cell::Cell::new(None) };
+}
+
 pub fn minimise(plan: &Plan, trace: &[Action], target: &Violation, refs: &mut References) -> Result<Found, String> {
+    DEADLINE.with(|d| d.set(None));
+    let r = minimise_inner(plan, trace, target, refs);
+    DEADLINE.with(|d| d.set(None));
+    r
+}
+
+fn minimise_inner(plan: &Plan, trace: &[Action], target: &Violation, refs: &mut References) -> Result<Found, String> {
     let mut n = 0u32;
     let mut plan = plan.clone();
     let original_strategy = plan.strategy.clone();
@@ -41,6 +59,7 @@ pub fn minimise(plan: &Plan, trace: &[Action], target: &Violation, refs: &mut Re
     };
     script = t;
     let _ = original_strategy;
+    DEADLINE.with(|d| d.set(Some(std::time::Instant::now() + MINIMISE_BUDGET)));
 
     macro_rules! attempt {
         ($cand:expr, $scr:expr) => {{
@@ -216,6 +235,7 @@ pub fn minimise(plan: &Plan, trace: &[Action], target: &Violation, refs: &mut Re
         }
     }
     // the minimised run must itself replay exactly
+    DEADLINE.with(|d| d.set(None));
     let Some((t2, v2, h2)) = still(&plan, &script, target, refs, &mut n) else {
         return Err("minimised run does not reproduce".into());
     };
